@@ -158,6 +158,8 @@ def ref_blt(text):
                 out.append(Decimal(it))
             elif it.isdigit() or (i == 0 and first_decimal and _decimal_ok(it)):
                 raise Unspecified('exotic digits')
+            elif i == 0 and first_decimal and re.fullmatch(r'[0-9]+/[1-9][0-9]*', it):
+                raise Unspecified('a fraction p/q as weight: not in the format, but the only spelling of a Fraction weight')
             else:
                 raise Invalid(f'not a number: {it!r}')
         return out
